@@ -1131,7 +1131,17 @@ size_t ZSTD_decompressMultiFrame(ZSTD_DCtx* dctx,
 
         if (ddict) {
             /* we were called from ZSTD_decompress_usingDDict */
-            FORWARD_IF_ERROR(ZSTD_decompressBegin_usingDDict(dctx, ddict), "");
+            const ZSTD_DDict* frameDDict = ddict;
+            if (dctx->refMultipleDDicts == ZSTD_rmd_refMultipleDDicts && dctx->ddictSet) {
+                /* The dictionary is installed here, before the frame header is decoded :
+                 * pick the DDict named by this frame now (as the streaming decoder does),
+                 * otherwise the tables of the last referenced DDict would be used. */
+                ZSTD_frameHeader zfh;
+                if (ZSTD_getFrameHeader_advanced(&zfh, src, srcSize, dctx->format) == 0 && zfh.dictID != 0) {
+                    const ZSTD_DDict* const named = ZSTD_DDictHashSet_getDDict(dctx->ddictSet, zfh.dictID);
+                    if (named != NULL) frameDDict = named;
+            }   }
+            FORWARD_IF_ERROR(ZSTD_decompressBegin_usingDDict(dctx, frameDDict), "");
         } else {
             /* this will initialize correctly with no dict if dict == NULL, so
              * use this in all cases but ddict */
